@@ -17,7 +17,7 @@ package main
 //     transaction is built with solana-go's own types, so the real Message.HasAccount /
 //     IsVersioned / Program / GetAllKeys run on it.
 //   - solanatxmetaparsers.ParseAnyTransactionStatusMeta is replaced (rewrite) by
-//     verifC19ParseAnyMeta: the stored meta of a model transaction is the one byte <id>; the decoded
+//     verifC19ParseAnyMeta: the stored meta of a model transaction is the one byte <id>|0x80; the decoded
 //     value is a real *confirmed_block.TransactionStatusMeta (protobuf era) or a real
 //     metalatest/metaoldest.TransactionStatusMeta (bincode eras), so the real getErr runs on it.
 //   - solanaerrors.ParseTransactionError (jsoniter + base64 + bincode) is replaced inside getErr by
@@ -126,7 +126,7 @@ func verifC19Reset(start uint64) {
 func verifC19NewTx(slotIx, pos int) *verifC19Tx {
 	t := &verifC19Tx{id: len(verifC19.txs), slotIx: slotIx, pos: pos, nsig: 1, ninstr: 1, key1: 3, key2: 3, prog: 9}
 	p := uint64(pos)
-	t.wire = &old_faithful_grpc.Transaction{Transaction: []byte{byte(t.id)}, Meta: []byte{byte(t.id)}, Index: &p}
+	t.wire = &old_faithful_grpc.Transaction{Transaction: []byte{byte(t.id)}, Meta: []byte{byte(t.id) | 0x80}, Index: &p}
 	verifC19.txs = append(verifC19.txs, t)
 	return t
 }
@@ -201,6 +201,9 @@ func verifC19TxFromDecoder(d *bin.Decoder) (*solana.Transaction, error) {
 	if err != nil {
 		return nil, err
 	}
+	if int(b) >= len(verifC19.txs) {
+		return nil, errors.New("verif: not a transaction of the model")
+	}
 	t := verifC19.txs[int(b)]
 	if t.badWire {
 		return nil, errors.New("verif: undecodable transaction")
@@ -242,7 +245,10 @@ func verifC19ParseAnyMeta(buf []byte) (any, error) {
 	if len(buf) != 1 {
 		return nil, errors.New("verif: meta outside the model")
 	}
-	t := verifC19.txs[int(buf[0])]
+	if buf[0]&0x80 == 0 || int(buf[0]&0x7f) >= len(verifC19.txs) {
+		return nil, errors.New("verif: not a meta of the model")
+	}
+	t := verifC19.txs[int(buf[0]&0x7f)]
 	if t.badMeta {
 		return nil, errors.New("verif: failed to parse tx meta")
 	}
